@@ -35,6 +35,15 @@ let rec p_expr = function
   | "bit" :: r -> (let (a, r) = p_expr r in match r with
       | i :: r -> (ESlice (a, nat_of_int (int_of_string i), S O), r)
       | _ -> raise (Parse "bit"))
+  | "dsl" :: idxw :: w :: r ->
+      let (a, r) = p_expr r in let (i, r) = p_expr r in
+      (EDynSlice (a, i, nat_of_int (int_of_string idxw), nat_of_int (int_of_string w)), r)
+  | "dbit" :: idxw :: pw :: r ->
+      let (a, r) = p_expr r in let (i, r) = p_expr r in
+      (EDynBit (a, i, nat_of_int (int_of_string idxw), nat_of_int (int_of_string pw)), r)
+  | "dpart" :: parts :: pw :: r ->
+      let (a, r) = p_expr r in let (i, r) = p_expr r in
+      (EDynPart (a, i, nat_of_int (int_of_string parts), nat_of_int (int_of_string pw)), r)
   | t :: _ -> raise (Parse ("expr token " ^ t))
   | [] -> raise (Parse "expr eof")
 
